@@ -109,8 +109,12 @@ def envReadBody (max : Nat) (pfx : Bytes) : Prog ReadResult :=
       .read size fun _ derr =>
         match derr with
         | some e =>
-          if !e.isEOF then .done { outcome := .fail { code := codeUnknown, wrapsEOF := false }, grown := 0 }
-          else .done { outcome := .fail { code := codeInvalidArgument, wrapsEOF := false }, grown := 0 }
+          if e.isEOF then .done { outcome := .fail { code := codeInvalidArgument, wrapsEOF := false }, grown := 0 }
+          else
+            -- fix F19: an error that already is a *connect.Error keeps its code
+            match e with
+            | .coded c w => .done { outcome := .fail { code := c, wrapsEOF := w }, grown := 0 }
+            | _ => .done { outcome := .fail { code := codeUnknown, wrapsEOF := false }, grown := 0 }
         | none => .done { outcome := .fail { code := codeInvalidArgument, wrapsEOF := false }, grown := 0 }
     else
       (payloadLoop 3 size []).bind fun o =>
